@@ -17,8 +17,9 @@ os.environ.setdefault("TQDM_DISABLE", "1")
 HERE = os.path.dirname(os.path.abspath(__file__))
 if HERE not in sys.path:
     sys.path.insert(0, HERE)
-if "/repo" not in sys.path:
-    sys.path.insert(0, "/repo")
+REPO = os.environ.get("TDGLSIM_REPO", "/repo")  # override only for testing the machinery on scratch copies
+if REPO not in sys.path:
+    sys.path.insert(0, REPO)
 
 DEFAULT_SEED = {
     "C01": 101, "C02": 102, "C04": 104, "C05": 105, "C06": 106, "C08": 108, "C09": 109,
@@ -50,7 +51,7 @@ def main():
         # 16 workers x 16 BLAS threads thrash; the numba kernels keep their own thread control
         env["OPENBLAS_NUM_THREADS"] = "1"
         env["MKL_NUM_THREADS"] = "1"
-        env["PYTHONPATH"] = "/repo:" + HERE + (":" + env["PYTHONPATH"] if env.get("PYTHONPATH") else "")
+        env["PYTHONPATH"] = REPO + ":" + HERE + (":" + env["PYTHONPATH"] if env.get("PYTHONPATH") else "")
         os.execve(sys.executable, [sys.executable] + sys.argv, env)
     os.environ.setdefault("NUMBA_NUM_THREADS", "16")
     from sim import driver
